@@ -34,7 +34,12 @@ def main():
         elif o.status != 'proved':
             inconc.append(o)
     wall = time.time() - t0
-    ev = write_evidence(pid, a.tier, spec['level'], obls, wall, spec['trusted_base'], spec['not_covered'],
+    try:
+        import lengine
+        extra_nc = ['budget not met, withdrawn from the claim: ' + x for x in lengine.BUDGET_NOT_MET]
+    except Exception:
+        extra_nc = []
+    ev = write_evidence(pid, a.tier, spec['level'], obls, wall, spec['trusted_base'], spec['not_covered'] + extra_nc,
                         './check %s --tier %s' % (pid, a.tier), spec.get('explanation', ''))
     for o in obls:
         print('  [%s] %-12s %-44s %7.1fs %s' % (o.engine, o.status, o.name, o.seconds, (o.detail or '')[:110]), flush=True)
